@@ -61,7 +61,7 @@ func TestVerifC03(t *testing.T) {
 			}
 		}
 	}
-	n := 2000
+	n := 1500
 	if verifh.Thorough() {
 		n = 30000
 	}
